@@ -6,7 +6,10 @@ import build, zv
 ASSUMPTIONS = [
     "the regex translator in tools/gen.py classifies each setter case correctly (validated by this differential run on the full grid)",
     "ZSTD_cParam_getBounds/ZSTD_dParam_getBounds values are dumped by a C program compiled against the current tree",
-    "static (caller-memory) contexts are not driven here (nbWorkers / refMultipleDDicts restrictions)",
+    "static (caller-memory) contexts: the model's two restrictions (nbWorkers != 0 on a static CCtx, refMultipleDDicts on a static DCtx) are written by hand from zstd.h / the setters; "
+    "everything else on a static context is required to behave exactly like the heap context (driven on the full grid)",
+    "the model of the level -> compression-parameter derivation (Model/LevelParams.lean) is written by hand from ZSTD_getCParams_internal / ZSTD_adjustCParams_internal; the level table, "
+    "the level bounds and the numeric limits are regenerated; it is tied to every entry point taking a raw level on a directed level x source size x dictionary size grid",
 ]
 INT_MIN, INT_MAX = -2**31, 2**31 - 1
 BIG = {101: 22, 102: 22, 103: 22, 161: 22}    # ids whose large values make `start`/`frame` allocate GiBs
@@ -123,6 +126,180 @@ def gen_cases(ctx):
             else:
                 lines.append("dict")
         cases.append(("random %s-seq" % kind, lines))
+    cases += static_cases(ctx) + applied_cases(ctx) + derive_cases(ctx)
+    return cases
+
+
+def static_cases(ctx):
+    """contexts in caller-provided memory (`new s` = ZSTD_initStaticCCtx, `new t` = ZSTD_initStaticDCtx): the whole single-parameter grid
+    x stages again - a static context must answer exactly like a heap context except for the two documented restrictions -, frames after
+    every set (the value in force, or the refusal, is the same for every following frame), and random histories"""
+    cps, dps = ctx.gen["cps"], ctx.gen["dps"]
+    rng = ctx.rng
+    cases = []
+    for kind, ps in (("s", cps), ("t", dps)):
+        for p in ps:
+            for v in grid_values(p):
+                st = "set %d %d" % (p["id"], v)
+                cases.append(("grid static fresh", ["new " + kind, st, st]))
+                cases.append(("grid static midframe", ["new " + kind, "start", st, "end", st]))
+                for r in (1, 2, 3):
+                    cases.append(("grid static reset%d" % r, ["new " + kind, "set %d %d" % (p["id"], p["hi"]), "reset %d" % r, st, "reset %d" % r]))
+                cases.append(("grid static after-error", ["new " + kind, "set %d %d" % (ps[-1]["id"], 99999), st]))
+                if kind == "s":
+                    # the value in force (or the refusal) holds for every following frame, small and large, one-shot and streaming
+                    cases.append(("grid static frames", ["new s", st, "frame 100", "applied 3000", "frame 60000", st, "c2 100000", "simple 5000 3", "applied 3000", "reset 1", "applied 3000",
+                                                         "reset 2", "applied 3000", st, "reset 3", "applied 100"]))
+                else:
+                    cases.append(("grid static frames", ["new t", st, "dframe 0 0", "dframe 1 1", st, "dframe 0 1", "reset 1", "dframe 1 0", "reset 2", "dframe 0 0", st, "reset 3", "dframe 1 0"]))
+    for kind in "st":
+        cases.append(("unknown id", ["new " + kind, "set 7 1", "set 99999 1", "set -5 0"]))
+    # struct-level setters on a static context
+    byid = {p["id"]: p for p in cps}
+    good = [byid[i]["lo"] + 1 for i in CP_IDS]
+    for j, pid in enumerate(CP_IDS):
+        cp = list(good); cp[j] = byid[pid]["hi"] + 1
+        cases.append(("struct setters static", ["new s", "setparams %s 0 1 1" % " ".join(map(str, cp)), "frame 100", "setcparams " + " ".join(map(str, cp)), "setparams %s 1 0 0" % " ".join(map(str, good)),
+                                                "applied 5000", "start", "setparams %s 1 1 0" % " ".join(map(str, good)), "setfparams 0 0 0", "end", "setfparams 0 1 1", "frame 5000"]))
+    nseq = 60 if ctx.quick() else 1500
+    for _ in range(nseq):
+        lines = ["new s"]
+        started = False
+        for _ in range(rng.randint(3, 25)):
+            k = rng.random()
+            if 0.60 <= k < 0.76 and started:
+                k = 0.85
+            if k < 0.55:
+                p = rng.choice(cps) if rng.random() < 0.8 else byid[400]
+                v = rng.choice(grid_values(p) + [rng.randint(p["lo"], p["hi"])])
+                if p["id"] in BIG and v > BIG[p["id"]]:
+                    v = BIG[p["id"]]
+                if p["id"] in (1006, 1007) and v == 1:
+                    v = 0
+                lines.append("set %d %d" % (p["id"], v))
+            elif k < 0.60:
+                lines.append(struct_setter(rng, cps))
+            elif k < 0.65:
+                lines.append("frame %d" % rng.choice([0, 1, 100, 5000, 60000]))
+            elif k < 0.71:
+                lines.append("applied %d" % rng.choice([0, 1, 100, 5000, 60000]))
+            elif k < 0.76:
+                lines.append("simple %d %d" % (rng.choice([0, 100, 5000]), rng.randint(-5, 19)))
+            elif k < 0.82:
+                lines.append("start"); started = True
+            elif k < 0.90:
+                lines.append("end"); started = False
+            else:
+                r = rng.randint(1, 3)
+                lines.append("reset %d" % r)
+                if r != 2:
+                    started = False
+        lines.append("end")
+        cases.append(("random static c-seq", lines))
+    for _ in range(nseq // 3):
+        lines = ["new t"]
+        for _ in range(rng.randint(3, 20)):
+            k = rng.random()
+            if k < 0.6:
+                p = rng.choice(dps)
+                lines.append("set %d %d" % (p["id"], rng.choice(grid_values(p) + [rng.randint(p["lo"], p["hi"])])))
+            elif k < 0.7:
+                lines.append("start")
+            elif k < 0.8:
+                lines.append("end")
+            elif k < 0.9:
+                lines.append("dframe %d %d" % (rng.randint(0, 1), rng.randint(0, 1)))
+            else:
+                lines.append("reset %d" % rng.randint(1, 3))
+        cases.append(("random static d-seq", lines))
+    return cases
+
+
+def applied_cases(ctx):
+    """the compression parameters a frame is really compressed with (ZSTD_compress2 -> appliedParams) follow the parameter state: every
+    parameter x value, for two following frames, after a session reset, and back to the defaults' parameters after a parameter reset"""
+    cps = ctx.gen["cps"]
+    cases = []
+    for p in cps:
+        for v in grid_values(p):
+            if p["id"] in BIG and v > BIG[p["id"]] and p["id"] == 161:
+                continue
+            st = "set %d %d" % (p["id"], v)
+            cases.append(("applied sticky", ["new c", "applied 3000", st, "applied 3000", "applied 3000", "applied 100", "reset 1", "applied 3000", "applied 60000",
+                                             "reset 2", "applied 3000", st, "reset 3", "applied 3000"]))
+            # set in the middle of a frame (stored for the next frame when update-authorised, refused otherwise), frame abandoned
+            cases.append(("applied midframe", ["new c", "start", st, "reset 1", "applied 3000", "applied 3000", "reset 3", "applied 3000"]))
+    # a whole ZSTD_CCtx_params object applied to the context (ZSTD_CCtx_setParametersUsingCCtxParams): outside a frame only, all values at once,
+    # in force for the following frames like single sets; on a heap and on a static context (worker counts are not applied to a static context here:
+    # the unchanged library takes them through this door, see the report of the strengthening round)
+    for kind in "cs":
+        for p in cps:
+            if kind == "s" and p["id"] == 400:
+                continue
+            for v in grid_values(p):
+                if p["id"] in BIG and v > BIG[p["id"]] and p["id"] == 161:
+                    continue
+                cases.append(("grid papply", ["new " + kind, "pset %d %d" % (p["id"], v), "applied 3000", "papply", "applied 3000", "applied 3000", "reset 2", "applied 3000", "start", "papply", "end",
+                                              "pset 201 1", "papply", "applied 100", "frame 100"]))
+    # pairs: the level together with one explicit compression parameter / long-distance matching / the row-finder switch
+    byid = {p["id"]: p for p in cps}
+    for lv in (byid[100]["lo"], -1, 1, 4, 7, 13, 19, byid[100]["hi"]):
+        for pid in CP_IDS + [160, 1011, 1004]:
+            p = byid[pid]
+            for v in (p["lo"], p["lo"] + 1, min(p["hi"], BIG.get(pid, p["hi"]))):
+                cases.append(("applied pairs", ["new c", "set 100 %d" % lv, "set %d %d" % (pid, v), "applied 0", "applied 1", "applied 5000", "applied 60000", "reset 2", "applied 5000"]))
+    return cases
+
+
+DERIVE_PURE = (0, 1, 8)
+
+
+def derive_levels(ctx):
+    lv = {p["id"]: p for p in ctx.gen["cps"]}[100]
+    lo, hi, dflt = lv["lo"], lv["hi"], lv["dflt"]
+    out = []
+    for v in [INT_MIN, INT_MIN + 1, -2**30, lo - 100000, lo - 2, lo - 1, lo, lo + 1, lo // 2, -1000, -7, -2, -1, 0, 1, 2, dflt, 6, 12, 13, 16, 19, hi - 1, hi, hi + 1, 1000, INT_MAX - 1, INT_MAX]:
+        v = max(INT_MIN, min(INT_MAX, v))
+        if v not in out:
+            out.append(v)
+    return out
+
+
+def derive_cases(ctx):
+    """every entry point that takes a RAW compression level (no setter in between): the compression parameters it derives, on the grid
+    {levels far below / at / around the bounds, INT_MIN, INT_MAX} x source sizes around the table tiers x dictionary sizes.
+    One case = one (entry, source size, dictionary size), all levels (the monitor compares levels outside the bounds with the nearest bound)."""
+    levels = derive_levels(ctx)
+    hi = {p["id"]: p for p in ctx.gen["cps"]}[100]["hi"]
+    K = 1024
+    cases = []
+    srcs = [0, 1, 100, 513, 16 * K - 1, 16 * K, 16 * K + 1, 128 * K, 128 * K + 1, 256 * K, 256 * K + 1, 1 << 20, 1 << 30, (1 << 30) + 1, 1 << 32, 2**64 - 2]
+    dicts = [0, 1, 100, 16 * K, 110 * K, 300000, (1 << 30) + 1]
+    for e in DERIVE_PURE:
+        for sz in srcs:
+            for d in dicts:
+                cases.append(("derive", ["derive %d %d %d %d" % (e, lv, sz, d) for lv in levels]))
+
+    def fam(e, sz, d, maxlevel=None, extra=()):
+        ls = [lv for lv in levels if maxlevel is None or lv <= maxlevel or lv in extra]
+        cases.append(("derive", ["derive %d %d %d %d" % (e, lv, sz, d) for lv in ls]))
+    for sz in (0, 1, 100, 16 * K, 16 * K + 1):
+        fam(2, sz, 0)
+        fam(10, sz, 0)
+    for sz in (128 * K + 1, 256 * K + 1, 1000000):
+        fam(2, sz, 0, 3)
+        fam(10, sz, 0, 3)
+    for d in (100, 20000):
+        for sz in (0, 1000):
+            fam(3, sz, d)
+        fam(3, 140000, d, 3)
+        fam(7, 0, d)
+    fam(4, 0, 0, 12, extra=(INT_MAX,))
+    fam(9, 0, 0, 12, extra=(hi + 1,))
+    for d in (1, 100, 20000, 200000):
+        fam(5, 0, d)
+        fam(6, 0, d)
+    fam(6, 0, 0, 3)
     return cases
 
 
@@ -154,6 +331,10 @@ def monitor(ctx, lines, couts):
     first property failure or None."""
     cps, dps = ctx.gen["cps"], ctx.gen["dps"]
     kind, ps, prev, started = "c", cps, None, False
+    static = False
+    applied_seen = {}
+    if lines and lines[0].startswith("derive"):
+        return monitor_derive(ctx, lines, couts)
     for ln, out in zip(lines, couts):
         w = ln.split()
         if " | " not in out and not out.endswith("|"):
@@ -161,7 +342,8 @@ def monitor(ctx, lines, couts):
         status, _, vals = out.partition(" |")
         vals = vals.split()
         if w[0] == "new":
-            kind = w[1]; ps = dps if kind == "d" else cps; started = False
+            kind = w[1]; static = kind in "st"; kind = {"s": "c", "t": "d"}.get(kind, kind)
+            ps = dps if kind == "d" else cps; started = False
             defaults = [str(p["dflt"]) for p in ps]
             if vals != defaults:
                 return "fresh object does not read back the defaults"
@@ -173,10 +355,17 @@ def monitor(ctx, lines, couts):
                     return "unknown parameter id %d accepted" % pid
             else:
                 i = idx[0]; p = ps[i]
+                # a context in caller-provided memory: multi-threading (zstd.h, ZSTD_initStaticCCtx, "Limitation 2") and the table of
+                # several DDicts need allocations it cannot make - the SETTER refuses, nothing is stored
+                restricted = static and ((kind == "c" and pid == 400 and v != 0) or (kind == "d" and pid == 1003))
+                if static and kind == "c" and pid == 400 and not started and (vals[i] != "0" or (p["lo"] <= v <= p["hi"] and v != 0 and status != "err:unsupported")):
+                    return "static CCtx: set(ZSTD_c_nbWorkers,%d) -> %s, reads back %s (a worker count must be refused by the setter with parameter_unsupported: static contexts cannot run workers)" % (v, status, vals[i])
+                if static and kind == "d" and pid == 1003 and v == 1 and status.startswith("ok"):
+                    return "static DCtx: set(ZSTD_d_refMultipleDDicts,1) accepted (the DDict table cannot be allocated by a static context)"
                 if status.startswith("err"):
                     if vals != prev:
                         return "rejected set(%s,%d) changed the state" % (p["name"], v)
-                    if p["lo"] <= v <= p["hi"] and not (started and not (kind == "c" and p["mid"])) and status != "err:stage":
+                    if p["lo"] <= v <= p["hi"] and not restricted and not (started and not (kind == "c" and p["mid"])) and status != "err:stage":
                         return "in-range value rejected: set(%s,%d) -> %s with bounds [%d,%d]" % (p["name"], v, status, p["lo"], p["hi"])
                 else:
                     rb = int(vals[i])
@@ -206,6 +395,30 @@ def monitor(ctx, lines, couts):
             started = False
         elif w[0] == "frame" and status.startswith("ok"):
             started = False
+        elif w[0] == "pset":
+            if vals != prev:
+                return "setting a parameter of a separate ZSTD_CCtx_params object changed the context's parameters"
+        elif w[0] == "papply":
+            if status.startswith("err") and vals != prev:
+                return "refused ZSTD_CCtx_setParametersUsingCCtxParams changed the state"
+            if status.startswith("ok") and started:
+                return "ZSTD_CCtx_setParametersUsingCCtxParams accepted mid-frame"
+            if not status.startswith("ok") and not started:
+                return "ZSTD_CCtx_setParametersUsingCCtxParams refused outside a frame: %s" % status
+        elif w[0] == "applied":
+            if not status.startswith("ok ap="):
+                return "ZSTD_compress2 of %s bytes failed (%s) with an accepted parameter state" % (w[1], status)
+            started = False
+            # the parameters a frame is compressed with are a function of the parameter state in force (and the source size): same state,
+            # same size => same applied parameters, whatever happened in between (earlier frames, session resets, a parameter reset back to it)
+            key = (tuple(vals), w[1])
+            if applied_seen.setdefault(key, status) != status:
+                return "two frames of %s bytes compressed under the same parameter state used different compression parameters: %s vs %s" % (w[1], applied_seen[key], status)
+            ap = [int(x) for x in status[len("ok ap="):].split(",")]
+            for j, pid in enumerate(CP_IDS):
+                q = [x for x in cps if x["id"] == pid][0]
+                if not (q["lo"] <= ap[j] <= q["hi"]):
+                    return "frame compressed with %s=%d outside the advertised bounds [%d,%d]" % (q["name"], ap[j], q["lo"], q["hi"])
         elif w[0] == "reset":
             r = int(w[1])
             if kind == "p":
@@ -224,10 +437,40 @@ def monitor(ctx, lines, couts):
                 return "session-only reset changed a parameter"
         if w[0] == "c2":
             started = status != "ok"
-        if w[0] in ("start", "end", "frame", "simple", "dict", "c2", "dframe") and prev is not None and vals != prev:
+        if w[0] in ("start", "end", "frame", "simple", "dict", "c2", "dframe", "applied") and prev is not None and vals != prev:
             return "%s changed a stored parameter" % w[0]
         prev = vals
     return None
+
+
+def monitor_derive(ctx, lines, couts):
+    """model-independent checks on one `derive` case (one entry point, source size, dictionary size; all levels): every derived structure
+    passes ZSTD_checkCParams and the struct-level setters, and a level outside [ZSTD_minCLevel(), ZSTD_maxCLevel()] derives what the nearest
+    bound derives (0 derives what the default level derives)"""
+    lv = {p["id"]: p for p in ctx.gen["cps"]}[100]
+    res = {}
+    for ln, out in zip(lines, couts):
+        w = ln.split()
+        status = out.partition(" |")[0]
+        level = int(w[2])
+        what = "%s(level=%d, srcSize=%s, dictSize=%s)" % (DERIVE_NAMES.get(int(w[1]), "entry " + w[1]), level, w[3], w[4])
+        if not status.startswith("ok cp="):
+            return "%s failed: %s" % (what, status)
+        f = dict(x.split("=", 1) for x in status.split()[1:])
+        if f.get("chk") != "0":
+            return "%s derives compression parameters outside the advertised bounds: {wlog,clog,hlog,slog,mml,tlen,strat} = %s (ZSTD_checkCParams refuses them)" % (what, f["cp"])
+        if "acc" in f and f["acc"] != "ok":
+            return "%s returns a structure that ZSTD_CCtx_setCParams / ZSTD_CCtx_setParams refuse: %s -> %s" % (what, f["cp"], f["acc"])
+        res[level] = (f["cp"], what)
+    for level, (cp, what) in res.items():
+        ref = lv["lo"] if level < lv["lo"] else lv["hi"] if level > lv["hi"] else lv["dflt"] if level == 0 else None
+        if ref is not None and ref in res and res[ref][0] != cp:
+            return "%s derives %s, but level %d (the nearest accepted level) derives %s" % (what, cp, ref, res[ref][0])
+    return None
+
+
+DERIVE_NAMES = {0: "ZSTD_getCParams", 1: "ZSTD_getParams", 2: "ZSTD_compressCCtx", 3: "ZSTD_compress_usingDict", 4: "ZSTD_compressBegin", 5: "ZSTD_compressBegin_usingDict",
+                6: "ZSTD_createCDict", 7: "ZSTD_createCDict_byReference", 8: "ZSTD_CCtxParams_init+ZSTD_getCParamsFromCCtxParams", 9: "ZSTD_initCStream", 10: "ZSTD_CCtx_setParameter(level)+ZSTD_compress2"}
 
 
 def run_cases(ctx, exe, cases):
@@ -281,7 +524,10 @@ def correspondence(ctx):
     sets = {ln for tag, ls in cases for ln in ls if ln.startswith("set")}
     return dict(evaluations=len(lines), distinct_nontrivial=distinct,
                 rule="exhaustive grid: every parameter (regenerated from zstd.h) x {lo-1,lo,lo+1,0,default,hi-1,hi,hi+1,INT_MIN,INT_MAX,1,2,5,-1} x "
-                     "{fresh, mid-frame, after error, after each reset kind} x {CCtx, CCtx_params, DCtx} + random op sequences; a case is distinct by its op list; "
+                     "{fresh, mid-frame, after error, after each reset kind} x {CCtx, CCtx_params, DCtx, static CCtx, static DCtx} + random op sequences; "
+                     "compression parameters applied to following frames (every parameter x value, level x parameter pairs); raw-level entry points "
+                     "(getCParams/getParams/compressCCtx/compress_usingDict/compressBegin[_usingDict]/createCDict[_byReference]/CCtxParams_init/initCStream) x levels "
+                     "{INT_MIN .. lo-1, lo .. hi, hi+1 .. INT_MAX} x source sizes around the table tiers x dictionary sizes; a case is distinct by its op list; "
                      "every op's full parameter read-back is compared with the Lean model and checked by a model-independent monitor",
                 samples=[dict(case=cases[i][0], ops=cases[i][1], impl=c[spans[i][0]:spans[i][1]][-1][:160]) for i in (0, len(cases) // 2, len(cases) - 1)],
                 case_kinds=tags, distinct_set_ops=len(sets), exhaustive=True, model_impl_disagreements=len(bad))
@@ -291,7 +537,7 @@ def search_failing_input(ctx, broken, log):
     """a Props/C16 obligation broke (e.g. all_rows_wf): look for a concrete parameter/value that violates the
     property on the real code, using the monitor on the grid."""
     exe = harness()
-    cases = [cs for cs in gen_cases(ctx) if cs[0].startswith("grid")]
+    cases = [cs for cs in gen_cases(ctx) if cs[0].startswith("grid") or cs[0] == "derive"]
     lines, spans, c, m, bad = run_cases(ctx, exe, cases)
     for ci, (tag, ls) in enumerate(cases):
         a, b = spans[ci]
